@@ -189,6 +189,10 @@ func (h *header) encode(dst []byte) (int, error) {
 func (h *header) decode(src []byte) (int, error) {
 	total := 0
 
+	if len(src) < 2 {
+		return 0, fmt.Errorf("header/Decode: Insufficient buffer size. Expecting at least 2, got %d", len(src))
+	}
+
 	h.dbuf = src
 
 	mtype := h.Type()
@@ -216,6 +220,9 @@ func (h *header) decode(src []byte) (int, error) {
 	total++
 
 	remlen, m := binary.Uvarint(src[total:])
+	if m <= 0 || m > maxFixedHeaderLength-1 || remlen > uint64(maxRemainingLength) {
+		return total, fmt.Errorf("header/Decode: Malformed remaining length")
+	}
 	total += m
 	h.remlen = int32(remlen)
 
